@@ -28,11 +28,12 @@ type PathElem struct {
 
 // LV is an lvalue: a root (direct local cell or heap location) and a path.
 type LV struct {
-	Cell  *ssa.Alloc // non-escaping local
-	Loc   string     // heap root (SMT term of sort Loc)
-	RootT types.Type // type of the object at the root
-	Path  []PathElem
-	Avail string // for pointers into a slice: number of elements available from here ("" unknown)
+	Cell     *ssa.Alloc // non-escaping local
+	Loc      string     // heap root (SMT term of sort Loc)
+	RootT    types.Type // type of the object at the root
+	Path     []PathElem
+	Avail    string // for pointers into a slice: number of elements available from here ("" unknown)
+	Interior bool   // pointer to an element of a slice: an array-typed element is stored whole, not spread over (ref, idx)
 	// Reinterp != nil: pointer obtained by casting through unsafe.Pointer
 	Unsafe   bool
 	Reinterp types.Type
